@@ -16,6 +16,7 @@ import (
 	"github.com/resonatehq/resonate/internal/api"
 	"github.com/resonatehq/resonate/internal/app/coroutines"
 	"github.com/resonatehq/resonate/internal/app/subsystems/aio/echo"
+	"github.com/resonatehq/resonate/internal/app/subsystems/aio/store"
 	"github.com/resonatehq/resonate/internal/app/subsystems/aio/store/sqlite"
 	"github.com/resonatehq/resonate/internal/kernel/bus"
 	"github.com/resonatehq/resonate/internal/kernel/system"
@@ -252,7 +253,11 @@ func TestC12(t *testing.T) {
 			stats.Class("shutdown-with-requests-in-flight")
 		}
 	})
+	storeFailures(t, stats)
 	if core.Env("VERIF_STRESS", "1") == "1" {
+		for i := 0; i < 40; i++ {
+			idleShutdown(t, stats, i)
+		}
 		rounds := 6
 		if core.Tier() == "thorough" {
 			rounds = 60
@@ -377,6 +382,102 @@ func stress(t *testing.T, stats *core.Stats, seed int64) {
 			return
 		}
 		core.SaveFailure("last", map[string]any{"violation": msg, "key": key})
+		t.Fatalf("VIOLATION C12 %s", msg)
+	}
+}
+
+// failing is a store whose Execute always fails / always succeeds with empty results.
+type fakeStore struct{ fail bool }
+
+func (f *fakeStore) Execute(txs []*t_aio.Transaction) ([][]*t_aio.Result, error) {
+	if f.fail {
+		return nil, errors.New("store down")
+	}
+	out := make([][]*t_aio.Result, len(txs))
+	for i, tx := range txs {
+		out[i] = make([]*t_aio.Result, len(tx.Commands))
+	}
+	return out, nil
+}
+
+// storeFailures: the function every store worker uses to turn a batch into completions (store.Process) must
+// produce exactly one completion per submission, also when the batch fails as a whole ("subsystem failures").
+func storeFailures(t *testing.T, stats *core.Stats) {
+	rapid.Check(t, func(rt *rapid.T) {
+		n := rapid.IntRange(0, 12).Draw(rt, "n")
+		fail := rapid.Bool().Draw(rt, "fail")
+		sqes := make([]*SQE, n)
+		called := make([]int, n)
+		for i := range sqes {
+			i := i
+			k := rapid.IntRange(1, 3).Draw(rt, "ncmd")
+			cmds := make([]*t_aio.Command, k)
+			for x := range cmds {
+				cmds[x] = &t_aio.Command{Kind: t_aio.ReadPromise, ReadPromise: &t_aio.ReadPromiseCommand{Id: "p"}}
+			}
+			sqes[i] = &SQE{Id: fmt.Sprint("s", i), Submission: &t_aio.Submission{Kind: t_aio.Store, Tags: map[string]string{"id": fmt.Sprint("s", i)}, Store: &t_aio.StoreSubmission{Transaction: &t_aio.Transaction{Commands: cmds}}},
+				Callback: func(*t_aio.Completion, error) { called[i]++ }}
+		}
+		cqes := store.Process(&fakeStore{fail: fail}, sqes)
+		stats.Eval()
+		if len(cqes) != n {
+			core.SaveFailure("last", map[string]any{"violation": "store.Process lost completions", "submissions": n, "completions": len(cqes), "store_failed": fail})
+			rt.Fatalf("VIOLATION C12 a store batch of %d submissions (store failed = %v) produced %d completions: the other requests would never be answered", n, fail, len(cqes))
+		}
+		for i, c := range cqes {
+			if c.Id != sqes[i].Id || c.Callback == nil || (c.Error != nil) != fail || (c.Completion != nil) == fail {
+				rt.Fatalf("VIOLATION C12 completion %d of a store batch (store failed = %v) is %v", i, fail, c)
+			}
+			c.Callback(c.Completion, c.Error)
+		}
+		for i, k := range called {
+			if k != 1 {
+				rt.Fatalf("VIOLATION C12 submission %d of a store batch was completed %d times", i, k)
+			}
+		}
+		if fail && n > 1 {
+			stats.Class("store-batch-failure")
+		}
+	})
+}
+
+// idleShutdown: a request that arrives on an idle loop immediately before Shutdown is accepted (EnqueueSQE
+// returned without an error answer) and must therefore be answered before Loop returns.
+func idleShutdown(t *testing.T, stats *core.Stats, i int) {
+	m := metrics.New(prometheus.NewRegistry())
+	ap := api.New(8, m)
+	ai := aio.New(8, m)
+	ec, _ := echo.New(ai, m, &echo.Config{Size: 8, BatchSize: 4, Workers: 1})
+	ai.AddSubsystem(ec)
+	_ = ai.Start()
+	cfg := &system.Config{CoroutineMaxSize: 8, SubmissionBatchSize: 8, CompletionBatchSize: 8, PromiseBatchSize: 1, ScheduleBatchSize: 1, TaskBatchSize: 1, SignalTimeout: 50 * time.Millisecond, TaskEnqueueDelay: time.Second}
+	sys := system.New(ap, ai, cfg, m)
+	sys.AddOnRequest(t_api.Echo, coroutines.Echo)
+	loopDone := make(chan struct{})
+	go func() { _ = sys.Loop(); close(loopDone) }()
+	time.Sleep(time.Duration(1+i%5) * time.Millisecond) // the loop is idle, waiting for a signal
+	var n int32
+	var rerr error
+	ap.EnqueueSQE(&bus.SQE[t_api.Request, t_api.Response]{Id: "idle", Submission: &t_api.Request{Kind: t_api.Echo, Tags: map[string]string{"id": "idle", "name": "Echo"}, Echo: &t_api.EchoRequest{Data: "d"}},
+		Callback: func(res *t_api.Response, err error) { atomic.AddInt32(&n, 1); rerr = err }})
+	if i%2 == 1 {
+		time.Sleep(200 * time.Microsecond)
+	}
+	sys.Shutdown()
+	select {
+	case <-loopDone:
+	case <-time.After(20 * time.Second):
+		stats.Class("idle-shutdown-inconclusive:loop-did-not-return")
+		return
+	}
+	time.Sleep(5 * time.Millisecond)
+	_ = ap.Stop()
+	_ = ai.Stop()
+	stats.Eval()
+	stats.Class("idle-shutdown-trial")
+	if k := atomic.LoadInt32(&n); k != 1 {
+		msg := fmt.Sprintf("a request accepted on an idle loop right before Shutdown was answered %d times although Loop has returned (trial %d, last error %v)", k, i, rerr)
+		core.SaveFailure("last", map[string]any{"violation": msg})
 		t.Fatalf("VIOLATION C12 %s", msg)
 	}
 }
